@@ -1,6 +1,7 @@
 import Noodles.Basic.Wire
 import Noodles.Fasta.Model
 import Noodles.Fasta.DriverC11More
+import Noodles.Fasta.DriverC11Indexer
 /-! Line-protocol handler for the FASTA/FASTQ model (`c11 …`). -/
 namespace Noodles.Fasta
 open Noodles.Wire
@@ -88,6 +89,6 @@ def handleC11 : List String → String
           s!"{hex r.name}:{r.length}:{r.sequenceOffset}:{r.lineBases}:{r.lineWidth}:{r.qualityOffset}")
       | .error e => errStr e
     | none => "bad-op"
-  | ws => (More.handleC11More ws).getD "bad-op"
+  | ws => ((More.handleC11More ws) <|> (Idx.handleC11Indexer ws)).getD "bad-op"
 
 end Noodles.Fasta
